@@ -33,6 +33,8 @@ pub enum VmScenario {
         #[serde(default)]
         then_as: Option<usize>,
     },
+    /// C02 at VM level: `Vm::exec` under `specs` against the sequential schedule
+    Determinism { case: VmCase, specs: Vec<SchedSpec> },
     /// C05: totality and bounds; `calls` = number of consecutive exec calls on the same VM
     Total {
         case: VmCase,
@@ -572,8 +574,58 @@ pub fn evaluate(sc: &VmScenario) -> VmEval {
         VmScenario::Gas { case, spec, limits } => eval_gas(&mut ev, case, spec, limits),
         VmScenario::Read { case, spec, then_as } => eval_read(&mut ev, case, spec, *then_as),
         VmScenario::Total { case, spec, calls } => eval_total(&mut ev, case, spec, *calls),
+        VmScenario::Determinism { case, specs } => eval_determinism(&mut ev, case, specs),
     }
     ev
+}
+
+fn eval_determinism(ev: &mut VmEval, case: &VmCase, specs: &[SchedSpec]) {
+    let ca = Arc::new(case.clone());
+    let (r0, info0) = run_vm(&ca, &SchedSpec::sequential(), u64::MAX, RunOpts::default());
+    ev.infos.push(info0);
+    let Ok(o0) = r0 else {
+        ev.note("sequential_abnormal");
+        return;
+    };
+    for spec in specs {
+        let (r, info) = run_vm(&ca, spec, u64::MAX, RunOpts::default());
+        if info.multi_error_regions > 0 {
+            ev.note("several_children_failed");
+        }
+        ev.infos.push(info);
+        match r {
+            Ok(o) => {
+                if o.result != o0.result || o.state != o0.state {
+                    ev.finding = Some(finding(
+                        "schedule-dependence",
+                        format!(
+                            "Vm::exec: sequential {:?} {} | under {}: {:?} {} [{}]",
+                            o0.result,
+                            brief(&o0.state),
+                            spec.describe(),
+                            o.result,
+                            brief(&o.state),
+                            case.shape
+                        ),
+                    ));
+                    return;
+                }
+            }
+            Err(VmRunError::Budget) => ev.note("budget_skipped"),
+            Err(VmRunError::Harness(m)) => {
+                ev.finding = Some(finding("harness-error", m));
+                return;
+            }
+            Err(e) => {
+                ev.finding = Some(finding(
+                    "schedule-dependence",
+                    format!("Vm::exec: sequential {:?}, under {}: {e:?} [{}]", o0.result, spec.describe(), case.shape),
+                ));
+                return;
+            }
+        }
+    }
+    ev.outcome_hash = hash_outcome(&Ok((o0.result.clone(), o0.state.clone())));
 }
 
 fn compare_with_model(m: &MOutcome, o: &VmOutcome) -> Result<(), String> {
@@ -1260,6 +1312,7 @@ pub fn plan(prop: &str, tier: &str) -> Vec<BatchPlan> {
     };
     match prop {
         "C10" => vec![mk("c10-forkjoin", 40_000, 2_500_000, false)],
+        "C02" => vec![mk("c02-vm", 12_000, 800_000, false)],
         "C07" => vec![mk("c07-gas", 12_000, 600_000, true)],
         "C11" => vec![mk("c11-read", 120_000, 8_000_000, false)],
         "C05" => vec![
@@ -1314,6 +1367,20 @@ pub fn scenario_for(batch: &str, run_seed: u64) -> Option<VmScenario> {
             let then_as = if wl.chance(1, 4) { Some(1) } else { None };
             VmScenario::Read { case, spec, then_as }
         }
+        "c02-vm" => {
+            let light = wl.chance(1, 2);
+            let case = gen_forkjoin(&mut wl, light);
+            let specs = (0..6)
+                .map(|_| {
+                    let mut s = random_spec(&mut sr, false);
+                    if sr.chance(2, 3) {
+                        s.per_op_switch = true;
+                    }
+                    s
+                })
+                .collect();
+            VmScenario::Determinism { case, specs }
+        }
         "c05-enum3" => {
             let case_ix = crate::c06::CASE_INDEX.with(|c| c.get());
             let all = all_nullary();
@@ -1358,11 +1425,13 @@ pub fn scenario_for(batch: &str, run_seed: u64) -> Option<VmScenario> {
 }
 
 fn sample_of(sc: &VmScenario) -> Json {
+    let seq = SchedSpec::sequential();
     let (case, spec) = match sc {
         VmScenario::ForkJoin { case, spec, .. }
         | VmScenario::Gas { case, spec, .. }
         | VmScenario::Read { case, spec, .. }
         | VmScenario::Total { case, spec, .. } => (case, spec),
+        VmScenario::Determinism { case, specs } => (case, specs.first().unwrap_or(&seq)),
     };
     json!({
         "shape": case.shape,
@@ -1386,6 +1455,7 @@ pub fn run_case(_prop: &str, batch: &str, run_seed: u64) -> CaseOut {
         VmScenario::ForkJoin { case, .. }
         | VmScenario::Gas { case, .. }
         | VmScenario::Read { case, .. }
+        | VmScenario::Determinism { case, .. }
         | VmScenario::Total { case, .. } => case,
     };
     out.shape_hash = label(&format!("{:?}{:?}{:?}", case.program, case.init_stack.len(), case.cost));
@@ -1440,6 +1510,7 @@ pub fn shrink_payload(payload: &Json, class: &str) -> (Json, Json) {
             | VmScenario::Gas { spec, .. }
             | VmScenario::Read { spec, .. }
             | VmScenario::Total { spec, .. } => *spec = s,
+            VmScenario::Determinism { .. } => {}
         }
         c
     };
@@ -1449,6 +1520,7 @@ pub fn shrink_payload(payload: &Json, class: &str) -> (Json, Json) {
             VmScenario::ForkJoin { case, .. }
             | VmScenario::Gas { case, .. }
             | VmScenario::Read { case, .. }
+            | VmScenario::Determinism { case, .. }
             | VmScenario::Total { case, .. } => *case = nc,
         }
         c
@@ -1458,13 +1530,14 @@ pub fn shrink_payload(payload: &Json, class: &str) -> (Json, Json) {
             VmScenario::ForkJoin { case, .. }
             | VmScenario::Gas { case, .. }
             | VmScenario::Read { case, .. }
+            | VmScenario::Determinism { case, .. }
             | VmScenario::Total { case, .. } => case.clone(),
         }
     };
     let seq = set_spec(&cur, SchedSpec::sequential());
     tried += 1;
     let mut schedule_irrelevant = false;
-    if repro(&seq) {
+    if !matches!(cur, VmScenario::Determinism { .. }) && repro(&seq) {
         cur = seq;
         kept += 1;
         schedule_irrelevant = true;
